@@ -503,9 +503,8 @@ func runWirePart(c *Ctx, work string, sp *WireSpec) (Coverage, int, error) {
 	// 4b. C05: the design model under all fragmentations, and the read-level traces against StreamAbs
 	streamCov := map[string]interface{}{}
 	if sp.Op == "stream" {
-		maxSid := 135
 		mc := &tlc.Run{SpecDir: specDir, Scratch: filepath.Join(work, "streammc"), Module: "StreamCodec", Workers: 16, Timeout: 20 * time.Minute,
-			Cfg: fmt.Sprintf("CONSTANTS\n  Tier = %q\n  Seed = %d\n  MaxSid = %d\nSPECIFICATION Spec\nINVARIANTS NoOverAsk ExactConsumption FaultSurfaces\nPROPERTIES ReturnAtEnd RefinesAbs Terminates\nCHECK_DEADLOCK FALSE\n", c.Tier, c.Seed, maxSid)}
+			Cfg: fmt.Sprintf("CONSTANTS\n  Tier = %q\n  Seed = %d\nSPECIFICATION Spec\nINVARIANTS NoOverAsk ExactConsumption FaultSurfaces\nPROPERTIES ReturnAtEnd RefinesAbs Terminates\nCHECK_DEADLOCK FALSE\n", c.Tier, c.Seed)}
 		mr, err := mc.Exec()
 		if err != nil {
 			return nil, 2, infra("StreamCodec model check: %v", err)
